@@ -387,4 +387,19 @@ theorem rt_walletMsg (ops : CellOps R) (hl : ops.Lawful) (w : WalletMsg R) (hwf 
     have := RT.bind (rt_ref c) (f := fun r => (fun ch => (decodeMessage ops r).map (fun m => ((⟨w.sendMode, m⟩ : WalletMsg R), ch)) : Dec R (WalletMsg R))) hc
     rwa [Enc.cat_eNil] at this
 
+/-! ### values in range have an encoding -/
+
+theorem eUint_of_range (n : Nat) (v : Int) (h0 : 0 ≤ v) (h1 : v < (2 : Int) ^ n) :
+    (eUint n v : Enc R) = some (natToBits n v.toNat, []) := by
+  unfold eUint; simp only [h0, h1, and_self, if_true]
+
+theorem eBytes_of (n : Nat) (h : Bytes) (hl : h.length = n) (hw : Bytes.WF h) :
+    (eBytes n h : Enc R) = some (bytesToBits h, []) := by
+  unfold eBytes; simp only [hl, hw, and_self, if_true, eBits]
+
+theorem eMaybeRef_some (o : Option R) : ∃ ch : Chunk R, eMaybeRef o = some ch ∧ ch.1.length = 1 ∧ ch.2.length ≤ 1 := by
+  cases o with
+  | none => exact ⟨([false], []), rfl, rfl, by simp⟩
+  | some r => exact ⟨([true], [r]), by simp [eMaybeRef, eBool, eRef, Enc.cat], rfl, by simp⟩
+
 end TonVerif.Proofs.Message
